@@ -465,3 +465,38 @@ def _contains( outer, inner ):
         if n is inner:
             return True
     return False
+
+
+def carried_reads( cfg, src, loop ):
+    """reads, inside `loop`, of a local that is assigned inside the loop but not on every path of the iteration ahead of the read: the value
+    of the PREVIOUS iteration (or of the initialisation ahead of the loop) is used.  A read inside the local's own re-assignment ( x = x + y )
+    and locals that are only augmented are accumulators and not reported.  -> [ ( name, CNode of the read ) ]"""
+    def within( node ):
+        return any( a is loop for a in src.ancestors( node ))
+    h = cfg.node_of( loop )
+    first = [ m for m, l in cfg.succ[h] if l == 'true' ]
+    if not first:
+        return []
+    targets = { t.id for t in ast.walk( loop.target ) if isinstance( t, ast.Name ) } if isinstance( loop, ast.For ) else set()
+    assigned = {}
+    for n in cfg.nodes:
+        if n.kind in ( 'stmt', 'for', 'with' ) and n.stmt is not None and n.stmt is not loop and within( n.stmt ):
+            st = n.stmt
+            tgts = st.targets if isinstance( st, ast.Assign ) else [ st.target ] if isinstance( st, ast.For ) and n.kind == 'for' else \
+                   [ it.optional_vars for it in st.items if it.optional_vars is not None ] if isinstance( st, ast.With ) and n.kind == 'with' else []
+            for tg in tgts:
+                for t in ast.walk( tg ):
+                    if isinstance( t, ast.Name ) and isinstance( t.ctx, ast.Store ):
+                        assigned.setdefault( t.id, [] ).append( n )
+    out = []
+    for v, ass in sorted( assigned.items()):
+        if v in targets:
+            continue
+        reach = cfg.reachable( first[0], avoid=set( ass ), edge_ok=lambda a, b, l: b is not h )
+        for n in cfg.nodes:
+            own = n.own()
+            if own is None or n.stmt is None or n in ass or n not in reach or not within( n.stmt ):
+                continue
+            if any( isinstance( x, ast.Name ) and x.id == v and isinstance( x.ctx, ast.Load ) for x in ast.walk( own )):
+                out.append(( v, n ))
+    return out
